@@ -42,6 +42,11 @@ def main():
             out["demo_clean_tree_rc"] = rc0
         rc, o = sh("git apply %s" % os.path.join(sd, "patch.diff"), cwd=wt)
         if rc != 0:
+            # later fix: commits moved the context lines: retry with less context, then with patch(1)
+            rc, o2 = sh("git apply -C1 %s || patch -p1 --fuzz=3 --no-backup-if-mismatch < %s" % (os.path.join(sd, "patch.diff"), os.path.join(sd, "patch.diff")), cwd=wt)
+            o += o2
+            out["applied_with_reduced_context"] = rc == 0
+        if rc != 0:
             out["patch_applies"] = False
             out["apply_output"] = o[-500:]
             print(json.dumps(out, indent=1))
